@@ -67,7 +67,7 @@ def blocks(tier, seed):
     nfull, nskel, nchain = (3, 4, 3) if q else (5, 5, 4)
     bl = [
         Block('CTRL_full', lambda s, n: spaces.progs_upto(nfull, 'full', s, n), ctrl_case,
-              'every program of the full control grammar with <= %d nodes' % nfull, nshards=64 if q else 1024, backstop=30),
+              'every program of the full control grammar with <= %d nodes' % nfull, nshards=64 if q else 1024, backstop=30 if q else 120),
         Block('CTRL_skel', lambda s, n: spaces.progs_upto(nskel, 'skel', s, n), ctrl_case,
               'every program of the skeleton grammar with <= %d nodes' % nskel, nshards=64, backstop=30),
         Block('CTRL_chain', lambda s, n: itertools.islice(spaces.chain_progs(nchain), s, None, n), ctrl_case,
